@@ -2,3 +2,5 @@
 import RactorModel.Extracted
 import RactorModel.Props.C18
 import RactorModel.Props.C15
+import RactorModel.Props.C13
+import RactorModel.Props.C14
